@@ -25,6 +25,15 @@ def templates(tier):
     return ts
 
 
+def entry_templates(tier):
+    """Templates run through the public entry point lex() (Tokens::empty, buffer, set_tokens_len)."""
+    n = 3 if tier == 'quick' else 4
+    # capacity-edge: with the small-buffer hook the token capacity is 32; 30..33 one-byte tokens + 2 EndOfSource
+    # cross capacity-1, capacity and the E103 overflow path
+    return [('all-%d' % n, [SYM] * n, 1), ('dense-errors', T('@#$`~?', 2), 6), ('payloads', T('1 2 0x3 ', 2), 8),
+            ('capacity-edge', T(';' * 28, 3), 28)]
+
+
 WANT = ({'returns-ok'}, ('impl-no-', 'slot-'))
 
 
@@ -36,7 +45,8 @@ def run(tier):
         '`unreachable` becomes an obligation that must be unsatisfiable; loop unrolling bounds carry unwinding obligations.',
         ['the second-generation parser, build_header and the XML dumps', 'uninitialised reads as such',
          'E102/E103 (sources above the buffer floors)', 'inputs that do not fit a template'],
-        20 if tier == 'quick' else 100)
+        20 if tier == 'quick' else 100,
+        entry_templates=entry_templates(tier))
 
 
 def replay_file(path):
